@@ -16,7 +16,7 @@ Open Scope nat_scope.
 Definition ev_depth (e : ev) : option nat :=
   match e with
   | EArm | EClear => None
-  | ERun d _ _ | ERead d _ _ | EFallback d _ | ESkip d _ _ | EDrop d _ | EHErr d _ | EPanic d _ => Some d
+  | ERun d _ _ | ERead d _ _ | EFallback d _ | ESkip d _ _ | ENext d _ _ | EDrop d _ | EHErr d _ | EPanic d _ => Some d
   end.
 Definition at_level (d : nat) (e : ev) : bool :=
   match ev_depth e with Some d' => d' =? d | None => false end.
@@ -57,6 +57,7 @@ Inductive good : option nat -> list ev -> Prop :=
     (stable -> forall i mss', lto lm i = true -> i < j -> nth_mss rs i = Some mss' -> anymatch mss' b <> Yes) ->
     good (Some j) l -> good lm (ERun d j b :: l)
 | g_read i x l : good (Some i) l -> good (Some i) (ERead d i x :: l)
+| g_next i b l : good (Some i) l -> good (Some i) (ENext d i b :: l)
 | g_herr i : good (Some i) [EHErr d i]
 | g_panic lm i : lto lm i = true -> i < length rs -> good lm [EPanic d i]
 | g_drop lm w : good lm [EDrop d w]
@@ -64,6 +65,42 @@ Inductive good : option nat -> list ev -> Prop :=
     (stable -> forall i mss, lto lm i = true -> nth_mss rs i = Some mss -> anymatch mss b = No) ->
     good lm [EFallback d b].
 End Spec.
+
+(* ---- how an invocation moves between its routes (nonterminal_continues / terminal_stops at trace level) ----
+   [flow d m l]: l is a legal continuation of the depth-d events of an invocation in mode m:
+   MOut lm p  between routes: lm = last route that ran, p = bytes that were available when the last handler
+              chain handed the connection on (or at the start): later events see p extended by prefetches;
+   MIn i      inside the handlers of route i. *)
+Inductive mode := MOut (lm : option nat) (p : list byte) | MIn (i : nat).
+Definition is_prefix (p b : list byte) : Prop := exists q, b = p ++ q.
+
+Section Flow.
+Variable d : nat.
+Inductive flow : mode -> list ev -> Prop :=
+| f_nil m : flow m []
+| f_skip lm p i b l : lto lm i = true -> is_prefix p b -> flow (MOut lm p) l -> flow (MOut lm p) (ESkip d i b :: l)
+| f_run lm p j b l : lto lm j = true -> is_prefix p b -> flow (MIn j) l -> flow (MOut lm p) (ERun d j b :: l)
+| f_read i x l : flow (MIn i) l -> flow (MIn i) (ERead d i x :: l)
+| f_herr i : flow (MIn i) [EHErr d i]
+| f_next i b l : flow (MOut (Some i) b) l -> flow (MIn i) (ENext d i b :: l)
+| f_panic lm p i : flow (MOut lm p) [EPanic d i]
+| f_drop lm p w : flow (MOut lm p) [EDrop d w]
+| f_fb lm p b : is_prefix p b -> flow (MOut lm p) [EFallback d b].
+End Flow.
+
+(* events a route's own handlers emit at their depth *)
+Definition in_chain_ev (d i : nat) (e : ev) : Prop :=
+  match e with ERead d' i' _ | EHErr d' i' => d' = d /\ i' = i | _ => False end.
+(* what may come first after a route's handlers handed the connection on with bytes p: a later route (run or
+   cached skip) or the fallback, on p extended by what was prefetched since; or a drop *)
+Definition next_ok (d i : nat) (p : list byte) (e : ev) : Prop :=
+  match e with
+  | ESkip d' j b | ERun d' j b => d' = d /\ i < j /\ is_prefix p b
+  | EFallback d' b => d' = d /\ is_prefix p b
+  | EDrop d' _ => d' = d
+  | EPanic d' j => d' = d
+  | _ => False
+  end.
 
 (* index of the last route that ran at depth d in l (lm if none) *)
 Definition last_run (d : nat) (lm : option nat) (l : list ev) : option nat :=
@@ -113,3 +150,29 @@ Fixpoint drop_last (l : list ev) : Prop :=
   | e :: r => (is_anydrop e = true -> r = []) /\ drop_last r
   end.
 Definition nodrops (l : list ev) : Prop := forall e, In e l -> is_anydrop e = false.
+
+(* ---- how much fuel an invocation needs (totality of the model's [compile]) ----
+   One invocation makes at most (number of routes) * (MAXB + 1) + MAXB + 2 passes: every pass after the
+   first either lets a further route match or has prefetched at least one more byte into a buffer that
+   is refused beyond MAXB; a subroute handler needs one unit more than its route list. *)
+Definition loop_bound (n : nat) : nat := n * (MAXB + 1) + MAXB + 2.
+Fixpoint need_h (h : handler) : nat :=
+  match h with
+  | HSub rs _ =>
+      S (Nat.max (loop_bound (length rs))
+          ((fix nr (l : list route) : nat :=
+              match l with
+              | [] => 0
+              | Route _ hs :: r =>
+                  Nat.max ((fix nh (l' : list handler) : nat :=
+                              match l' with [] => 0 | h' :: r' => Nat.max (need_h h') (nh r') end) hs) (nr r)
+              end) rs))
+  | _ => 0
+  end.
+Fixpoint need_hs (hs : list handler) : nat :=
+  match hs with [] => 0 | h :: r => Nat.max (need_h h) (need_hs r) end.
+Fixpoint need_routes (rs : list route) : nat :=
+  match rs with [] => 0 | Route _ hs :: r => Nat.max (need_hs hs) (need_routes r) end.
+Definition need_rs (rs : list route) : nat := Nat.max (loop_bound (length rs)) (need_routes rs).
+Definition fuel_ok (rs : list route) (fuel : nat) : Prop := need_rs rs <= fuel.
+Definition is_exh {net} (r : res net) : bool := match r with Exhausted _ => true | _ => false end.
